@@ -163,6 +163,59 @@ def run(ctx):
                 for k_ in list(sys.modules):
                     if k_.split(".")[0] == pkg:
                         del sys.modules[k_]
+    # a dry run leaves nothing behind in the process either: the top-level keep / the direct call of a data function that follows it
+    # commits its path like any other (seen by ANOTHER process and as a file under the data directory, not through this process)
+    for di2, (k_dry, entry_kind) in enumerate([(1, "keep"), (2, "call"), (3, "keep"), (1, "call"), (4, "keep")]):
+        base = tempfile.mkdtemp(prefix="ddsverif_c15d_")
+        pkg = "c15d_%d_%d" % (os.getpid(), di2)
+        try:
+            real.reset_process_state()
+            real.set_store("local", os.path.join(base, "si"), os.path.join(base, "sd"))
+            tmpl = ("import dds\nfrom ddsverif_rt import log, term\n\n"
+                    "def m():\n    log('m')\n    return term('m', %r)\n\n"
+                    "@dds.data_function('/dry/df')\ndef df():\n    log('df')\n    return term('df', %r)\n\n"
+                    "def f0():\n    return term('f0', dds.keep('/dry/p', m), df())\n")
+            os.makedirs(os.path.join(base, pkg), exist_ok=True)
+            open(os.path.join(base, pkg, "__init__.py"), "w").close()
+            top = {"kind": "keep", "fun": "m", "path": "/dry/p"} if entry_kind == "keep" else {"kind": "call", "fun": "df"}
+            pth = "/dry/p" if entry_kind == "keep" else "/dry/df"
+            outs = []
+            for v in ("v1", "v2"):
+                with open(os.path.join(base, pkg, "main.py"), "w") as fh:
+                    fh.write(tmpl % (v, v))
+                real.load_world(base, pkg + ".main", None, accept=pkg)
+                if v == "v2":
+                    outs.append(real.run({"kind": "eval", "fun": "f0"}, {"stages": ORDER[:k_dry]}))
+                outs.append(real.run(top))
+            want = ("m(%s)" if entry_kind == "keep" else "df(%s)") % "v2"
+            wk = pipeline.WorkerProc("real", cwd=base)
+            try:
+                wk.call(cmd="store_api", internal_dir=os.path.join(base, "si"), data_dir=os.path.join(base, "sd"), cache_objects=None)
+                lv = wk.call(cmd="load", path=pth)
+            finally:
+                wk.close()
+            res.evaluations += 3
+            res.count("directed_dry_run_then_top_level_entry")
+            res.nontrivial("dry run then top-level %s, stages %d" % (entry_kind, k_dry))
+            bad = None
+            if outs[0]["error"] is not None or outs[-1]["error"] is not None or outs[-1]["value"] != want:
+                bad = "the entries give %s" % ([(o["value"], o["error"]) for o in outs],)
+            elif not all(o.get("idle") for o in outs):
+                # (the harness clears a context that is left behind after every run, so that the next run is not disturbed by it)
+                bad = "an evaluation context is still in place after the run(s) number %s of [keep/call, restricted run, keep/call]: the next top-level keep would be taken for a nested one" % (
+                    [i for i, o in enumerate(outs) if not o.get("idle")],)
+            elif lv.get("error") is not None or lv.get("value") != want:
+                bad = "the top-level entry returned %r, another process loads %s as %s" % (outs[-1]["value"], pth, lv)
+            if bad:
+                res.violations.append({"what": "a run restricted to %s, then a top-level %s of an edited function in the same process: %s" % (ORDER[:k_dry], entry_kind, bad),
+                                       "input": {"source": tmpl % ("v2", "v2"), "stages": ORDER[:k_dry], "entry": top}, "kf": None})
+        except BaseException as e:
+            res.violations.append({"what": "the dry-run-then-entry stratum failed: %s: %s" % (type(e).__name__, str(e)[:300]), "input": {}, "kf": None})
+        finally:
+            shutil.rmtree(base, ignore_errors=True)
+            for k_ in list(sys.modules):
+                if k_.split(".")[0] == pkg:
+                    del sys.modules[k_]
     # paths given as pathlib objects (to the decorator of a data function, to dds.keep): under a restricted stage list nothing is
     # committed at them either - on a fresh store they do not load, after an edit they still load the value of the last full run
     for pi_, store_kind in enumerate(["local", "memory", "local_lru"]):
